@@ -375,7 +375,7 @@ theorem C17_update_rules (f : Rule → Rule) (hf : ∀ r, (f r).id = r.id) (sels
 
 /-- non-vacuity: `SecRuleUpdateTargetById 10 20 "!ARGS:x"` reaches both rules -/
 def C17_r (id : Nat) : Rule :=
-  ⟨id, 1, [], [⟨[mkTarget .code .args [] false], none, [], false, []⟩], .pass, 0, 0, [], none, [], false, false, []⟩
+  ⟨id, 1, [], [⟨[mkTarget .code .args [] false], none, [], false, [], 0⟩], .pass, 0, 0, [], none, [], false, false, []⟩
 example : (applyDir [C17_r 10, C17_r 20, C17_r 30] (.updateTargetById [.one 10, .one 20] [.neg .args (mkExc .code .args [0x78])])).map
     (fun rs => rs.map fun r => (r.links.map fun l => l.targets.map (·.exc.length))) = some [[[1]], [[1]], [[0]]] := by decide
 example : applyDir [C17_r 10] (.updateTargetById [.one 99] []) = none := by decide
